@@ -454,9 +454,9 @@ Pat/BlocksProofs.vos Pat/BlocksProofs.vok Pat/BlocksProofs.required_vos: Pat/Blo
 Pat/C01Check.vo Pat/C01Check.glob Pat/C01Check.v.beautified Pat/C01Check.required_vo: Pat/C01Check.v Gen/PatConsts.vo Pat/Syntax.vo Pat/Sem.vo Pat/Matcher.vo Pat/Modifiers.vo Pat/MatchList.vo Pat/Base64.vo Pat/Atoms.vo Pat/Pipeline.vo Pat/ChainRun.vo Pat/Chain.vo
 Pat/C01Check.vio: Pat/C01Check.v Gen/PatConsts.vio Pat/Syntax.vio Pat/Sem.vio Pat/Matcher.vio Pat/Modifiers.vio Pat/MatchList.vio Pat/Base64.vio Pat/Atoms.vio Pat/Pipeline.vio Pat/ChainRun.vio Pat/Chain.vio
 Pat/C01Check.vos Pat/C01Check.vok Pat/C01Check.required_vos: Pat/C01Check.v Gen/PatConsts.vos Pat/Syntax.vos Pat/Sem.vos Pat/Matcher.vos Pat/Modifiers.vos Pat/MatchList.vos Pat/Base64.vos Pat/Atoms.vos Pat/Pipeline.vos Pat/ChainRun.vos Pat/Chain.vos
-Pat/C01CheckProofs.vo Pat/C01CheckProofs.glob Pat/C01CheckProofs.v.beautified Pat/C01CheckProofs.required_vo: Pat/C01CheckProofs.v Gen/PatConsts.vo Pat/Syntax.vo Pat/Sem.vo Pat/Matcher.vo Pat/MatcherProofs.vo Pat/Modifiers.vo Pat/ModifiersProofs.vo Pat/MatchList.vo Pat/C01Check.vo
-Pat/C01CheckProofs.vio: Pat/C01CheckProofs.v Gen/PatConsts.vio Pat/Syntax.vio Pat/Sem.vio Pat/Matcher.vio Pat/MatcherProofs.vio Pat/Modifiers.vio Pat/ModifiersProofs.vio Pat/MatchList.vio Pat/C01Check.vio
-Pat/C01CheckProofs.vos Pat/C01CheckProofs.vok Pat/C01CheckProofs.required_vos: Pat/C01CheckProofs.v Gen/PatConsts.vos Pat/Syntax.vos Pat/Sem.vos Pat/Matcher.vos Pat/MatcherProofs.vos Pat/Modifiers.vos Pat/ModifiersProofs.vos Pat/MatchList.vos Pat/C01Check.vos
+Pat/C01CheckProofs.vo Pat/C01CheckProofs.glob Pat/C01CheckProofs.v.beautified Pat/C01CheckProofs.required_vo: Pat/C01CheckProofs.v Gen/PatConsts.vo Pat/Syntax.vo Pat/Sem.vo Pat/Matcher.vo Pat/MatcherProofs.vo Pat/Modifiers.vo Pat/ModifiersProofs.vo Pat/MatchList.vo Pat/Atoms.vo Pat/Pipeline.vo Pat/PipelineProofs.vo Pat/C01Check.vo
+Pat/C01CheckProofs.vio: Pat/C01CheckProofs.v Gen/PatConsts.vio Pat/Syntax.vio Pat/Sem.vio Pat/Matcher.vio Pat/MatcherProofs.vio Pat/Modifiers.vio Pat/ModifiersProofs.vio Pat/MatchList.vio Pat/Atoms.vio Pat/Pipeline.vio Pat/PipelineProofs.vio Pat/C01Check.vio
+Pat/C01CheckProofs.vos Pat/C01CheckProofs.vok Pat/C01CheckProofs.required_vos: Pat/C01CheckProofs.v Gen/PatConsts.vos Pat/Syntax.vos Pat/Sem.vos Pat/Matcher.vos Pat/MatcherProofs.vos Pat/Modifiers.vos Pat/ModifiersProofs.vos Pat/MatchList.vos Pat/Atoms.vos Pat/Pipeline.vos Pat/PipelineProofs.vos Pat/C01Check.vos
 Pat/Chain.vo Pat/Chain.glob Pat/Chain.v.beautified Pat/Chain.required_vo: Pat/Chain.v Gen/PatConsts.vo Pat/Syntax.vo Pat/Sem.vo
 Pat/Chain.vio: Pat/Chain.v Gen/PatConsts.vio Pat/Syntax.vio Pat/Sem.vio
 Pat/Chain.vos Pat/Chain.vok Pat/Chain.required_vos: Pat/Chain.v Gen/PatConsts.vos Pat/Syntax.vos Pat/Sem.vos
